@@ -231,7 +231,7 @@ struct Simplifier {
 
             case GateType::MX:
                 yield({GateType::H, {}, ts, inst.tag});
-                yield({GateType::M, {}, ms, inst.tag});
+                yield({GateType::M, inst.args, ms, inst.tag});
                 yield({GateType::H, {}, ts, inst.tag});
                 break;
             case GateType::MY:
@@ -239,16 +239,16 @@ struct Simplifier {
                 yield({GateType::S, {}, ts, inst.tag});
                 yield({GateType::S, {}, ts, inst.tag});
                 yield({GateType::H, {}, ts, inst.tag});
-                yield({GateType::M, {}, ms, inst.tag});
+                yield({GateType::M, inst.args, ms, inst.tag});
                 yield({GateType::H, {}, ts, inst.tag});
                 yield({GateType::S, {}, ts, inst.tag});
                 break;
             case GateType::M:
-                yield({GateType::M, {}, ms, inst.tag});
+                yield({GateType::M, inst.args, ms, inst.tag});
                 break;
             case GateType::MRX:
                 yield({GateType::H, {}, ts, inst.tag});
-                yield({GateType::M, {}, ms, inst.tag});
+                yield({GateType::M, inst.args, ms, inst.tag});
                 yield({GateType::R, {}, ts, inst.tag});
                 yield({GateType::H, {}, ts, inst.tag});
                 break;
@@ -257,13 +257,13 @@ struct Simplifier {
                 yield({GateType::S, {}, ts, inst.tag});
                 yield({GateType::S, {}, ts, inst.tag});
                 yield({GateType::H, {}, ts, inst.tag});
-                yield({GateType::M, {}, ms, inst.tag});
+                yield({GateType::M, inst.args, ms, inst.tag});
                 yield({GateType::R, {}, ts, inst.tag});
                 yield({GateType::H, {}, ts, inst.tag});
                 yield({GateType::S, {}, ts, inst.tag});
                 break;
             case GateType::MR:
-                yield({GateType::M, {}, ms, inst.tag});
+                yield({GateType::M, inst.args, ms, inst.tag});
                 yield({GateType::R, {}, ts, inst.tag});
                 break;
             case GateType::RX:
@@ -467,7 +467,7 @@ struct Simplifier {
             case GateType::MXX:
                 yield({GateType::CX, {}, ts, inst.tag});
                 yield({GateType::H, {}, qs1_buf, inst.tag});
-                yield({GateType::M, {}, ms1_buf, inst.tag});
+                yield({GateType::M, inst.args, ms1_buf, inst.tag});
                 yield({GateType::H, {}, qs1_buf, inst.tag});
                 yield({GateType::CX, {}, ts, inst.tag});
                 break;
@@ -477,14 +477,14 @@ struct Simplifier {
                 yield({GateType::S, {}, qs2_buf, inst.tag});
                 yield({GateType::S, {}, qs2_buf, inst.tag});
                 yield({GateType::H, {}, qs1_buf, inst.tag});
-                yield({GateType::M, {}, ms1_buf, inst.tag});
+                yield({GateType::M, inst.args, ms1_buf, inst.tag});
                 yield({GateType::H, {}, qs1_buf, inst.tag});
                 yield({GateType::CX, {}, ts, inst.tag});
                 yield({GateType::S, {}, qs_buf, inst.tag});
                 break;
             case GateType::MZZ:
                 yield({GateType::CX, {}, ts, inst.tag});
-                yield({GateType::M, {}, ms2_buf, inst.tag});
+                yield({GateType::M, inst.args, ms2_buf, inst.tag});
                 yield({GateType::CX, {}, ts, inst.tag});
                 break;
 
